@@ -303,6 +303,41 @@ class PathInterp(sym.Interp):
                         continue
                 return self.ev(a["body"])
             raise sym.Unsupported(n, "match on Option without a matching arm")
+        if self.is_boolish(v):
+            # match on a condition / a tuple of conditions with `true` / `false` / `_` patterns: arms in order, each component decided at most once
+            comps = list(v) if isinstance(v, tuple) else [v]
+            known = {}
+
+            def truth(i):
+                if i not in known:
+                    c = comps[i]
+                    known[i] = True if c is sp.true or c is True else False if c is sp.false or c is False else self.decide(c)
+                return known[i]
+
+            def arm_matches(pat):
+                ps = pat["ps"] if (isinstance(v, tuple) and pat.get("k") == "PTuple") else ([pat] if not isinstance(v, tuple) else None)
+                if pat.get("k") == "Wild" or (pat.get("k") == "Bind" and "sub" not in pat):
+                    return True
+                if ps is None or len(ps) != len(comps):
+                    raise sym.Unsupported(n, "match arm pattern on conditions")
+                for i, q in enumerate(ps):
+                    if q.get("k") == "Wild":
+                        continue
+                    if q.get("k") == "PLit" and q.get("lit") == "bool":
+                        if truth(i) != (q.get("v") == "true"):
+                            return False
+                        continue
+                    raise sym.Unsupported(n, "match arm pattern on conditions")
+                return True
+            for a in n["arms"]:
+                if not arm_matches(a["pat"]):
+                    continue
+                if "guard" in a:
+                    g = self.ev(a["guard"])
+                    if not (g is sp.true or (g is not sp.false and self.decide(g))):
+                        continue
+                return self.ev(a["body"])
+            raise sym.Unsupported(n, "match on conditions without a matching arm")
         if isinstance(v, CmpVal):
             rest = {"Less", "Equal", "Greater"}
             for a in n["arms"]:
@@ -319,6 +354,12 @@ class PathInterp(sym.Interp):
                 rest = rest - S_
             raise sym.Unsupported(n, "match on an Ordering without a matching arm")
         raise sym.Unsupported(n, "match on %r" % (v,))
+
+    @staticmethod
+    def is_boolish(v):
+        def b(x):
+            return x is True or x is False or isinstance(x, (sp.logic.boolalg.Boolean, sp.core.relational.Relational))
+        return b(v) or (isinstance(v, tuple) and len(v) > 0 and all(b(x) for x in v))
 
     def ev_If(self, n):
         c = self.ev(n["c"])
